@@ -33,6 +33,7 @@ def run(ctx, rep):
     _hashkeys.run(F, rep)
     fresh_results(F, rep)
     index_dispatch(F, rep)
+    values_not_views(F, rep)
     if _casts is not None:
         _casts.run_c13(F, rep)
 
@@ -336,3 +337,70 @@ def index_dispatch(F, rep):
            "violated" if bad else ("undecided" if undec else "ok"), "; ".join(bad) or ("not evaluated: %s" % undec if undec else " ".join(rows)), li.span, fn=li.path,
            key="C13.index-dispatch|origin_is_map")
     rep.floor("C13.index-dispatch container types evaluated", len(universe) - len(undec), 6)
+
+
+def values_not_views(F, rep):
+    """What ends up inside a program list is a value, never a view (Primitive::HeapPrimitive) of some other container's slot -- a view keeps
+    following that slot.  Three places make that true: (1) `ret` copies the returned value out of a view, (2) BuiltInFunction::run copies every
+    argument out before it dispatches, (3) every push into a list outside the operand stack takes its value from one of: a copied-out value, an
+    argument (2), a callback's return value (1), or an element of a program list (values by this very rule)."""
+    import rules
+    from props import _casts
+    MOVE = ("bytecode::variables::primitive::Primitive::move_out_of_heap_primitive", "bytecode::variables::primitive::HeapPrimitive::to_owned_primitive")
+    T = rules.TRANSPARENT | {rules.TRY_BRANCH, "core::option::Option::unwrap", "core::option::Option::expect", "anyhow::Context::context", "anyhow::Context::with_context",
+                            "core::option::Option::cloned", "core::option::Option::transpose", "core::option::Option::map"}
+    # (1) ret
+    ret = F.fn("bytecode::instruction::implementations::ret")
+    if ret is None:
+        raise AnchorMissing("instruction handler ret")
+    n = 0
+    for bi, si, d, rv, s_ in ret.assigns():
+        if "agg" in rv and rv["agg"].get("adt", "").endswith("ReturnValue") and rv["agg"].get("v") == "Value":
+            n += 1
+            l = mir.op_local(rv["ops"][0])
+            oc = rules.origin_calls(ret, l, transparent=T) if l is not None else []
+            good = bool(oc) and all(c.matches(MOVE) for c in oc)
+            rep.ob("C13.values-not-views", "`return v` hands back the value of v, not a view of the slot it was read from", "ok" if good else "violated",
+                   "the returned value derives from %s" % sorted({mir.short(c.callee()) for c in oc}), s_.get("sp"), fn=ret.path, key="C13.values-not-views|ret")
+    rep.floor("C13.values-not-views ReturnValue::Value constructions in ret", n, 1)
+    # (2) arguments are copied out before the dispatch
+    run_, arms = _casts.arms_of_run(F)
+    arm_blocks = set().union(*arms.values()) if arms else set()
+    pre = [c for c in run_.calls() if c.matches(MOVE) and c.bb not in arm_blocks and not run_.blocks[c.bb].get("cleanup")]
+    loops = [c for c in run_.calls() if c.callee().endswith("Iterator>::next") and "IterMut" in c.callee() and c.bb not in arm_blocks]
+    sanitised = bool(pre) and bool(loops)
+    rep.ob("C13.values-not-views", "BuiltInFunction::run copies every argument out of its view before it dispatches on the built-in", "ok" if sanitised else "violated",
+           "%d copy-out call(s) in a loop over the arguments ahead of the dispatch" % len(pre), run_.span, fn=run_.path, key="C13.values-not-views|arguments")
+    # (3) pushes into program lists
+    np = 0
+    for f in F.crates["bytecode"].fns:
+        if f.path.startswith("bytecode::context::Ctx::"):
+            continue              # the operand stack: views live there on purpose
+        for c in f.calls():
+            if not c.matches(("alloc::vec::Vec::push", "alloc::vec::Vec::insert")) or "bytecode::variables::primitive::Primitive" not in " ".join(c.t["func"].get("ga") or [])[:160]:
+                continue
+            np += 1
+            l = mir.op_local(c.args[1 if c.matches("alloc::vec::Vec::push") else 2])
+            o = rules.origins(f, l, transparent=T) if l is not None else set()
+            by = {x.bb: x for x in f.calls()}
+            why_bad = []
+            for x in o:
+                if x[0] == "call":
+                    cc = by[x[1]]
+                    if cc.matches(MOVE):
+                        continue
+                    ga = " ".join(cc.t["func"].get("ga") or [])
+                    if cc.matches(("core::slice::<impl [T]>::get", "core::slice::<impl [T]>::first", "core::ops::index::Index::index", "alloc::vec::Vec::remove")) and \
+                            "bytecode::variables::primitive::Primitive" in ga + (cc.t["func"].get("res") or ""):
+                        continue      # an argument (2) or an element of a program list: a value
+                    why_bad.append(mir.short(cc.callee()))
+                elif x[0] == "arg":
+                    if "ReturnValue" in f.locals[x[1]] and not why_bad:
+                        continue      # a callback's return value (1)
+                    why_bad.append("parameter %s" % f.local_name(x[1]))
+                elif x[0] != "const":
+                    why_bad.append(str(x)[:40])
+            rep.ob("C13.values-not-views", "%s pushes a value, not a view, into a list" % mir.short(f.path), "violated" if why_bad else "ok",
+                   "the pushed value can come straight from %s" % sorted(set(why_bad)) if why_bad else "", c.span, fn=f.path,
+                   key="C13.values-not-views|push|%s" % mir.short(f.path))
+    rep.floor("C13.values-not-views pushes into program lists", np, 3)
